@@ -26,6 +26,13 @@ type Net struct {
 	target  atomic.Pointer[string] // "host:port" of the peer listener; nil => refuse
 	Refuse  atomic.Bool            // refuse dials (connection refused) regardless of target
 	DialGate func(n int)           // optional hook called before each dial (n = attempt index from 1)
+	Trace    func(ev string)        // optional: "start-ok" | "start-fail" (a dial / Listen of the library returned)
+}
+
+func (n *Net) trace(ev string) {
+	if n.Trace != nil {
+		n.Trace(ev)
+	}
 }
 
 type DialRecord struct {
@@ -61,6 +68,7 @@ func (n *Net) Dial(ctx context.Context, network, _ string) (net.Conn, error) {
 		n.mu.Lock()
 		n.Dials = append(n.Dials, rec)
 		n.mu.Unlock()
+		n.trace("start-fail")
 		return nil, ErrRefused
 	}
 	var d net.Dialer
@@ -69,6 +77,7 @@ func (n *Net) Dial(ctx context.Context, network, _ string) (net.Conn, error) {
 		n.mu.Lock()
 		n.Dials = append(n.Dials, rec)
 		n.mu.Unlock()
+		n.trace("start-fail")
 		return nil, err
 	}
 	n.mu.Lock()
@@ -87,6 +96,7 @@ func (n *Net) Dial(ctx context.Context, network, _ string) (net.Conn, error) {
 	n.mu.Lock()
 	n.Dials = append(n.Dials, rec)
 	n.mu.Unlock()
+	n.trace("start-ok")
 	return w, nil
 }
 
@@ -111,6 +121,7 @@ func (n *Net) Listen(ctx context.Context, network, _ string) (net.Listener, erro
 	n.listeners = append(n.listeners, w)
 	n.Listens = append(n.Listens, w.Opened)
 	n.mu.Unlock()
+	n.trace("start-ok")
 	return w, nil
 }
 
